@@ -447,6 +447,19 @@ func (ex *Exec) harnessIntrinsic(f *ssa.Function) intrinsic {
 			}
 			return ex.i64(int64(n))
 		}
+	case "vSentOn":
+		return func(ex *Exec, st *State, args []Value, site ssa.CallInstruction) Value {
+			ch := args[0].(IfaceV).V.(ChanV)
+			n := 0
+			for _, e := range st.events {
+				if e.Kind == "send" && len(e.Args) > 0 {
+					if c2, ok := e.Args[0].(ChanV); ok && c2.Obj == ch.Obj {
+						n++
+					}
+				}
+			}
+			return ex.i64(int64(n))
+		}
 	case "vEvent":
 		return func(ex *Exec, st *State, args []Value, site ssa.CallInstruction) Value {
 			st.events = append(st.events, Event{Kind: argStr(args[0])})
